@@ -22,6 +22,7 @@ sensitivity: s/Data::Bool(r\[6\] != 0)/Data::Bool(r[6] == 0)/                   
 sensitivity: s/0x24 => ...CellErrorType::Num/0x24 => ...CellErrorType::NA/             error code map         KILLED
 sensitivity: s/v\[4\] \&= 0xFC;//                                                    flag bits leak into the double KILLED
 sensitivity: s/\[0x01, _, b, ../[0x01, b, _, ../ in parse_formula_value                 cached bool byte       KILLED
+sensitivity: seeded C02-2 (parse_sst drops zero-length strings, later isst shift)                   KILLED (replay + trace: SST = "", s0, "", s1, "")
 """
 import json
 
